@@ -10,12 +10,12 @@ BIN=$HOME/.rustup/toolchains/nightly-x86_64-unknown-linux-gnu/lib/rustlib/x86_64
 rm -rf $O; mkdir -p $O
 cd /verif/sim
 RUSTFLAGS='--cfg erbium_verif --cfg getrandom_backend="custom" --cfg esim_cov -C instrument-coverage --check-cfg=cfg(esim_cov)' \
-  CARGO_NET_OFFLINE=true cargo +nightly build --offline --target-dir $T 2>&1 | tail -3
+  LLVM_PROFILE_FILE=$O/build-%m.profraw CARGO_NET_OFFLINE=true cargo +nightly build --offline --target-dir $T 2>&1 | tail -3
 cd /verif
 for p in ${@:-C01 C02 C09 C10 C12 C13 C18 C20 C05 C08 C03 C04 C06 C07 C14 C15 C16}; do
   LLVM_PROFILE_FILE="$O/esim-%8m.profraw" ESIM_SCALE=${ESIM_SCALE:-0.1} $T/debug/esim check $p quick --dir $O 2>&1 | tail -1
 done
-$BIN/llvm-profdata merge -sparse $O/*.profraw -o $O/esim.profdata
+rm -f $O/build-*.profraw; $BIN/llvm-profdata merge -sparse $O/*.profraw -o $O/esim.profdata
 $BIN/llvm-cov report $T/debug/esim -instr-profile=$O/esim.profdata --ignore-filename-regex='(\.cargo|rustc|/verif/)' 2>/dev/null | grep -E "^repo|^Filename|^TOTAL" | awk '{printf "%-50s regions %6s missed %6s %8s  lines-missed %6s %8s\n", $1, $2, $3, $4, $9, $10}'
 for f in $SHOW; do
   $BIN/llvm-cov show $T/debug/esim -instr-profile=$O/esim.profdata $f --show-line-counts-or-regions 2>/dev/null | grep -E "^\s+[0-9]+\|\s+0\|" | head -${SHOWN:-200}
